@@ -362,6 +362,13 @@ func (t *Thread) processOutgoingInterest(
 		return false
 	}
 
+	// Check if violates /localhost
+	if outgoingFace.Scope() == defn.NonLocal && len(interest.NameV) > 0 &&
+		bytes.Equal(interest.NameV[0].Val, LOCALHOST) {
+		core.LogWarn(t, "Interest ", packet.Name, " cannot be sent to non-local FaceID=", nexthop, " since violates /localhost scope - DROP")
+		return false
+	}
+
 	// Create or update out-record
 	pitEntry.InsertOutRecord(interest, nexthop)
 
